@@ -2720,6 +2720,10 @@ where
         raw_packet: RawPacket,
     ) -> Vec<GenericEvent<PacketIdType>> {
         let mut events = Vec::new();
+        if self.status == ConnectionStatus::Connected {
+            Self::handle_v3_1_1_error(MqttError::ProtocolError, &mut events);
+            return events;
+        }
 
         match v3_1_1::Connack::parse(raw_packet.data_as_slice()) {
             Ok((packet, _consumed)) => {
@@ -2751,6 +2755,10 @@ where
         raw_packet: RawPacket,
     ) -> Vec<GenericEvent<PacketIdType>> {
         let mut events = Vec::new();
+        if self.status == ConnectionStatus::Connected {
+            self.handle_v5_0_error(MqttError::ProtocolError, &mut events);
+            return events;
+        }
 
         match v5_0::Connack::parse(raw_packet.data_as_slice()) {
             Ok((packet, _consumed)) => {
